@@ -24,6 +24,100 @@ type c10Case struct {
 	Pattern string   `json:"pattern"` // after the logon message: 'h' = Heartbeat reply to a TestRequest, 'a' = application message
 	Reqs    [][2]int `json:"reqs"`
 	Gap     *[2]int  `json:"gap,omitempty"` // (stored incoming counter, Logon seq)
+	// In: the expected number comes from real inbound traffic instead of a planted counter: a history
+	// of arrivals in every state that still receives ('i' application message, 'h' Heartbeat while
+	// logged on; 't' the peer's answer to the session's own TestRequest; 'u' an application message
+	// while that TestRequest is outstanding, then the answer), ended by a logout ('P' by the peer,
+	// 'L' by the session with the peer's answer, 'M' the same with a message still in flight before
+	// the answer); then the peer logs on again with number expected+D.
+	In string `json:"in,omitempty"`
+	D  int    `json:"d,omitempty"`
+}
+
+func gapOracle(stored, seq int, outs []outMsg, logged bool) (string, string) {
+	if !logged {
+		return "gap:not-logged", outsStr(outs)
+	}
+	var rr [][]byte
+	for _, o := range outs {
+		if mtype(o.Msg) == "2" {
+			rr = append(rr, o.Msg)
+		}
+	}
+	want := seq > stored+1
+	if want && len(rr) != 1 {
+		return "gap:no-resend-request", fmt.Sprintf("stored=%d logon-seq=%d outs=%s", stored, seq, outsStr(outs))
+	}
+	if !want && len(rr) != 0 {
+		return "gap:unexpected-resend-request", fmt.Sprintf("stored=%d logon-seq=%d outs=%s", stored, seq, outsStr(outs))
+	}
+	if want {
+		b, _ := get(rr[0], "7")
+		if b != strconv.Itoa(stored+1) {
+			if b == strconv.Itoa(stored) {
+				return "gap:begin=curr", fmt.Sprintf("stored=%d logon-seq=%d BeginSeqNo=%s want %d", stored, seq, b, stored+1)
+			}
+			return "gap:wrong-begin", fmt.Sprintf("stored=%d logon-seq=%d BeginSeqNo=%s want %d", stored, seq, b, stored+1)
+		}
+	}
+	return "", ""
+}
+
+func c10History(c c10Case) (string, string) {
+	hb := 30
+	if strings.ContainsAny(c.In, "tu") {
+		hb = 1
+	}
+	w := newWorld(wcfg{Role: c.Role, Buf: 20, HbMin: 1, HbMax: 30, HbInt: hb})
+	w.logonOK(hb)
+	if !w.s.IsLogged() {
+		return "setup:not-logged", ""
+	}
+	probes := 0
+	for i, p := range c.In {
+		switch p {
+		case 'i':
+			w.in(w.msg("D", "11=in"+strconv.Itoa(i)))
+		case 'h':
+			w.in(w.msg("0"))
+		case 't', 'u':
+			time.Sleep(2100 * time.Millisecond) // silence: the session probes the peer
+			vsched.Settle()
+			probes++
+			if countType(w.outs, "1") < probes {
+				return "setup:no-testrequest", outsStr(w.outs)
+			}
+			if p == 'u' {
+				w.in(w.msg("D", "11=while-probed"))
+			}
+			w.in(w.msg("0", "112="+strconv.Itoa(probes)))
+		case 'P':
+			w.in(w.msg("5"))
+		case 'L', 'M':
+			_ = w.s.Logout()
+			vsched.Settle()
+			if p == 'M' {
+				w.in(w.msg("D", "11=in-flight"))
+			}
+			w.in(w.msg("5"))
+		}
+	}
+	if w.s.IsLogged() {
+		return "setup:still-logged-after-logout", ""
+	}
+	if w.ctxDone {
+		return "setup:session-ended", ""
+	}
+	stored := w.nextIn - 1 // every message of the history was received
+	seq := stored + 1 + c.D
+	w.take()
+	w.in(rawFrom(w.peer, w.self, "A", seq, "98=0", "108="+strconv.Itoa(hb)))
+	outs := w.take()
+	sig, d := gapOracle(stored, seq, outs, w.s.IsLogged())
+	if sig != "" {
+		sig = "history-" + sig
+	}
+	return sig, d
 }
 
 func execBody(body func() (string, string)) (sig, detail string, steps int) {
@@ -42,6 +136,9 @@ var c10Resent int // retransmissions observed in the last run (outcome evidence)
 
 func c10Run(c c10Case) (string, string) {
 	c10Resent = 0
+	if c.In != "" {
+		return c10History(c)
+	}
 	hb := 30
 	if strings.Contains(c.Pattern, "p") {
 		hb = 1 // periodic heartbeats enter the outbound history (virtual time passes)
@@ -53,32 +150,7 @@ func c10Run(c c10Case) (string, string) {
 		seq := c.Gap[1]
 		w.in(rawFrom(w.peer, w.self, "A", seq, "98=0", "108="+strconv.Itoa(hb)))
 		outs := w.take()
-		if !w.s.IsLogged() {
-			return "gap:not-logged", outsStr(outs)
-		}
-		var rr [][]byte
-		for _, o := range outs {
-			if mtype(o.Msg) == "2" {
-				rr = append(rr, o.Msg)
-			}
-		}
-		want := seq > c.Gap[0]+1
-		if want && len(rr) != 1 {
-			return "gap:no-resend-request", fmt.Sprintf("stored=%d logon-seq=%d outs=%s", c.Gap[0], seq, outsStr(outs))
-		}
-		if !want && len(rr) != 0 {
-			return "gap:unexpected-resend-request", fmt.Sprintf("stored=%d logon-seq=%d outs=%s", c.Gap[0], seq, outsStr(outs))
-		}
-		if want {
-			b, _ := get(rr[0], "7")
-			if b != strconv.Itoa(c.Gap[0]+1) {
-				if b == strconv.Itoa(c.Gap[0]) {
-					return "gap:begin=curr", fmt.Sprintf("stored=%d logon-seq=%d BeginSeqNo=%s want %d", c.Gap[0], seq, b, c.Gap[0]+1)
-				}
-				return "gap:wrong-begin", fmt.Sprintf("stored=%d logon-seq=%d BeginSeqNo=%s want %d", c.Gap[0], seq, b, c.Gap[0]+1)
-			}
-		}
-		return "", ""
+		return gapOracle(c.Gap[0], seq, outs, w.s.IsLogged())
 	}
 	// logon, then the outbound history
 	if strings.HasPrefix(c.Pattern, "g") {
@@ -191,11 +263,13 @@ func runC10(R *vlib.Out) {
 		R.Eval()
 		sig, d, steps := execBody(func() (string, string) { return c10Run(c) })
 		R.Transitions += int64(steps)
-		R.State(fmt.Sprintf("%s/%s/%v/%v", c.Role, c.Pattern, c.Reqs, c.Gap))
-		R.ClassU(fmt.Sprintf("%s/%s/%v/%v", c.Role, c.Pattern, c.Reqs, c.Gap))
+		R.State(fmt.Sprintf("%s/%s/%v/%v/%s/%d", c.Role, c.Pattern, c.Reqs, c.Gap, c.In, c.D))
+		R.ClassU(fmt.Sprintf("%s/%s/%v/%v/%s/%d", c.Role, c.Pattern, c.Reqs, c.Gap, c.In, c.D))
 		R.Sample(5, c)
 		if sig != "" {
 			R.Violate(sig, fmt.Sprintf("%+v: %s", c, d), c)
+		} else if c.In != "" {
+			R.Outcome(fmt.Sprintf("history gap d=%d ok", c.D))
 		} else if c.Gap != nil {
 			R.Outcome(fmt.Sprintf("gap stored=%d logon=%d ok", c.Gap[0], c.Gap[1]))
 		} else {
@@ -208,6 +282,32 @@ func runC10(R *vlib.Out) {
 		for st := 0; st <= 4; st++ {
 			for q := 1; q <= 6; q++ {
 				if !try(c10Case{Role: role, Gap: &[2]int{st, q}}) {
+					return
+				}
+			}
+		}
+		// gap detection against a counter produced by real inbound histories
+		histN := 2
+		if *vlib.Tier == "thorough" {
+			histN = 4
+		}
+		var ins []string
+		var genIn func(p string)
+		genIn = func(p string) {
+			for _, end := range []string{"P", "L", "M"} {
+				ins = append(ins, p+end)
+			}
+			if len(p) == histN {
+				return
+			}
+			for _, x := range []string{"i", "h", "t", "u"} {
+				genIn(p + x)
+			}
+		}
+		genIn("")
+		for _, in := range ins {
+			for _, d := range []int{0, 1, 3} {
+				if !try(c10Case{Role: role, In: in, D: d}) {
 					return
 				}
 			}
